@@ -9,6 +9,8 @@ NOTES = ("Model-based verification with explicit TLA+ specifications (spec/*.tla
          "Exit 0 held / 1 VIOLATION / 2 tool error. See DESIGN.md.")
 
 ENGINES = [
+    {"name": "h-sim", "path": "harness/h-sim", "serves_properties": ["C14"],
+     "kind_free_text": "turmoil simulation harness (datacake-rpc feature `simulation`), built on its own so the feature is not unified into the other crates"},
     {"name": "h-ec", "path": "harness/h-ec", "serves_properties": ["C01", "C02", "C05", "C06", "C07", "C08", "C17", "C18", "C19"],
      "kind_free_text": "Rust conformance harness for datacake-eventual-consistency and the storage backends"},
     {"name": "h-node", "path": "harness/h-node", "serves_properties": ["C11", "C15", "C16"],
@@ -189,4 +191,13 @@ CHECKS = {
               "outcome and every node's storage right after it are validated by Trace_Consistency.tla against the same Required()."),
         design_ref="DESIGN.md section 7 C06",
         note="Layouts up to 5 nodes / 2-3 data centres. Lost replies only in the model. Timing-dependent facts are polled, not asserted at an instant."),
+    "C14": dict(
+        engine="tlc + h-sim",
+        technique="TLC exhaustive model checking of RpcNet.tla + execution of the model's external schedules (and random ones) against the real client/server in a turmoil simulation, outcomes validated by TLC",
+        text=("RpcNet.tla models link state, the lazy connection, request timeouts and concurrent requests; TLC checks at-most-once execution, outcome "
+              "classes and the timeout bound over every interleaving of fault events, sends and time, and emits every external schedule. A conductor "
+              "task inside a turmoil simulation performs the schedules in simulated time against the real RpcClient/Server (fast and slow handler); "
+              "Trace_RpcNet.tla validates every request's outcome (reply identity and payload, handler run count, elapsed time)."),
+        design_ref="DESIGN.md section 7 C14",
+        note="Simulated network (turmoil 0.4). Quick tier runs every 40th model schedule plus 400 random ones; thorough every 6th plus 4000."),
 }
